@@ -112,38 +112,72 @@ Definition literal_node (s : pst) : option (pres node) :=
 Section Parser.
 Variable pedantic : bool.
 
-Fixpoint parse_eval (fuel : nat) : P node :=
-  match fuel with O => pfuel | S f =>
-    l <- parse_logical f ;; binloop f op_eq (parse_logical f) NCmp l
-  end
-with parse_logical (fuel : nat) : P node :=
-  match fuel with O => pfuel | S f =>
-    l <- parse_comparison f ;; binloop f op_logic (parse_comparison f) NLogic l
-  end
-with parse_comparison (fuel : nat) : P node :=
-  match fuel with O => pfuel | S f =>
-    fun s => if is_t s TNOT then (let t := cur s in (padv ;;; e <- parse_comparison f ;; pret (NNot t e)) s)
-             else (l <- parse_strexpr f ;; binloop f op_cmp (parse_strexpr f) NCmp l) s
-  end
-with parse_strexpr (fuel : nat) : P node :=
-  match fuel with O => pfuel | S f =>
-    l <- parse_arith f ;; binloop f op_cat (parse_arith f) NCat l
-  end
-with parse_arith (fuel : nat) : P node :=
-  match fuel with O => pfuel | S f =>
-    l <- parse_term f ;; binloop f op_add (parse_term f) NArith l
-  end
-with parse_term (fuel : nat) : P node :=
-  match fuel with O => pfuel | S f =>
-    l <- parse_factor f ;; binloop f op_mul (parse_factor f) NArith l
-  end
-with parse_factor (fuel : nat) : P node :=
-  match fuel with O => pfuel | S f =>
-    fun s => if is_t s TMINUS then (let t := cur s in (padv ;;; a <- parse_atom f ;; pret (NNeg t a)) s)
-             else parse_atom f s
-  end
-with parse_atom (fuel : nat) : P node :=
-  match fuel with O => pfuel | S f =>
+Record prs := mkPrs {
+  pr_fuel : nat;
+  pr_parse_eval : P node;
+  pr_parse_logical : P node;
+  pr_parse_comparison : P node;
+  pr_parse_strexpr : P node;
+  pr_parse_arith : P node;
+  pr_parse_term : P node;
+  pr_parse_factor : P node;
+  pr_parse_atom : P node;
+  pr_parse_moddiv : P node;
+  pr_parse_cast : P node;
+  pr_parse_args : (list node) -> P (list node);
+  pr_parse_arglist : P (list node);
+  pr_parse_fncall : P node;
+  pr_parse_indices : (list node) -> P (list node);
+  pr_parse_resolver_tail : resolver -> P resolver;
+  pr_parse_resolver : P resolver;
+  pr_parse_ids : (list token) -> P (list token);
+  pr_parse_bounds : (list node) -> P (list node);
+  pr_parse_declare : P node;
+  pr_parse_const : P node;
+  pr_parse_enum_vals : (list str) -> P (list str);
+  pr_parse_comp_body : (list node) -> P (list node);
+  pr_parse_type : P node;
+  pr_parse_if_tail : (list (option node * list node)) -> P (list (option node * list node));
+  pr_parse_if : P node;
+  pr_parse_case_clauses : (list casecomp) -> P (list casecomp);
+  pr_parse_case : P node;
+  pr_parse_while : P node;
+  pr_parse_repeat : P node;
+  pr_parse_for : P node;
+  pr_parse_params : pacc -> P pacc;
+  pr_parse_paramlist : P (list (str * token * bool));
+  pr_parse_procedure : P node;
+  pr_parse_function : P node;
+  pr_parse_call : P node;
+  pr_parse_output_tail : (list node) -> P (list node);
+  pr_parse_statement : P node;
+  pr_parse_block_loop : btype -> (list node) -> P (list node);
+  pr_parse_block : btype -> P (list node) }.
+
+Definition parse_eval_body (self : prs) : P node :=
+    l <- pr_parse_logical self ;; binloop (pr_fuel self) op_eq (pr_parse_logical self) NCmp l.
+
+Definition parse_logical_body (self : prs) : P node :=
+    l <- pr_parse_comparison self ;; binloop (pr_fuel self) op_logic (pr_parse_comparison self) NLogic l.
+
+Definition parse_comparison_body (self : prs) : P node :=
+    fun s => if is_t s TNOT then (let t := cur s in (padv ;;; e <- pr_parse_comparison self ;; pret (NNot t e)) s)
+             else (l <- pr_parse_strexpr self ;; binloop (pr_fuel self) op_cmp (pr_parse_strexpr self) NCmp l) s.
+
+Definition parse_strexpr_body (self : prs) : P node :=
+    l <- pr_parse_arith self ;; binloop (pr_fuel self) op_cat (pr_parse_arith self) NCat l.
+
+Definition parse_arith_body (self : prs) : P node :=
+    l <- pr_parse_term self ;; binloop (pr_fuel self) op_add (pr_parse_term self) NArith l.
+
+Definition parse_term_body (self : prs) : P node :=
+    l <- pr_parse_factor self ;; binloop (pr_fuel self) op_mul (pr_parse_factor self) NArith l.
+
+Definition parse_factor_body (self : prs) : P node :=
+    fun s => if is_t s TMINUS then (let t := cur s in (padv ;;; a <- pr_parse_atom self ;; pret (NNeg t a)) s)
+             else pr_parse_atom self s.
+
+Definition parse_atom_body (self : prs) : P node :=
     fun s =>
       let t := cur s in
       match literal_node s with
@@ -152,9 +186,9 @@ with parse_atom (fuel : nat) : P node :=
         match tt t with
         | TDATE => POk (NDate t) (adv s)
         | TIDENTIFIER =>
-          if next_is s 1 TLPAREN then parse_fncall f s
+          if next_is s 1 TLPAREN then pr_parse_fncall self s
           else
-            (r <- parse_resolver f ;;
+            (r <- pr_parse_resolver self ;;
              fun s1 =>
                if is_t s1 TASSIGNMENT then
                  let at_ := cur s1 in
@@ -162,93 +196,80 @@ with parse_atom (fuel : nat) : P node :=
                  if is_t s2 TCARET then
                    let rt := cur s2 in
                    let s3 := adv s2 in
-                   if is_t s3 TIDENTIFIER then (v <- parse_resolver f ;; pret (NPtrAssign rt r v)) s3
+                   if is_t s3 TIDENTIFIER then (v <- pr_parse_resolver self ;; pret (NPtrAssign rt r v)) s3
                    else perr s3
-                 else (e <- parse_eval f ;; pret (NAssign at_ e r)) s2
+                 else (e <- pr_parse_eval self ;; pret (NAssign at_ e r)) s2
                else POk (NAccess t r) s1) s
         | TLPAREN =>
-          (padv ;;; e <- parse_eval f ;; expect TRPAREN ;;; pret e) s
-        | TDATA_TYPE => parse_cast f s
-        | TMOD | TDIV => if next_is s 1 TLPAREN then parse_moddiv f s else perr s
+          (padv ;;; e <- pr_parse_eval self ;; expect TRPAREN ;;; pret e) s
+        | TDATA_TYPE => pr_parse_cast self s
+        | TMOD | TDIV => if next_is s 1 TLPAREN then pr_parse_moddiv self s else perr s
         | _ => perr s
         end
-      end
-  end
-with parse_moddiv (fuel : nat) : P node :=
-  match fuel with O => pfuel | S f =>
+      end.
+
+Definition parse_moddiv_body (self : prs) : P node :=
     t <- pcur ;; padv ;;; padv ;;;
-    a <- parse_eval f ;; expect TCOMMA ;;; b <- parse_eval f ;; expect TRPAREN ;;; pret (NArith t a b)
-  end
-with parse_cast (fuel : nat) : P node :=
-  match fuel with O => pfuel | S f =>
+    a <- pr_parse_eval self ;; expect TCOMMA ;;; b <- pr_parse_eval self ;; expect TRPAREN ;;; pret (NArith t a b).
+
+Definition parse_cast_body (self : prs) : P node :=
     t <- pcur ;;
     if pedantic then pped t
     else match psc_type_of_word (tval t) with
          | None => perr                           (* unreachable: DATA_TYPE tokens carry one of the six words *)
-         | Some k => padv ;;; expect TLPAREN ;;; e <- parse_eval f ;; expect TRPAREN ;;; pret (NCast t e k)
-         end
-  end
-with parse_args (fuel : nat) (acc : list node) : P (list node) :=      (* after the first argument *)
-  match fuel with O => pfuel | S f =>
-    fun s => if is_t s TCOMMA then (padv ;;; e <- parse_eval f ;; parse_args f (e :: acc)) s
-             else (expect TRPAREN ;;; pret (rev acc)) s
-  end
-with parse_arglist (fuel : nat) : P (list node) :=                      (* current token follows '(' *)
-  match fuel with O => pfuel | S f =>
+         | Some k => padv ;;; expect TLPAREN ;;; e <- pr_parse_eval self ;; expect TRPAREN ;;; pret (NCast t e k)
+         end.
+
+Definition parse_args_body (self : prs) (acc : list node) : P (list node) :=
+    fun s => if is_t s TCOMMA then (padv ;;; e <- pr_parse_eval self ;; pr_parse_args self (e :: acc)) s
+             else (expect TRPAREN ;;; pret (rev acc)) s.
+
+Definition parse_arglist_body (self : prs) : P (list node) :=
     fun s => if is_t s TRPAREN then POk [] (adv s)
-             else (e <- parse_eval f ;; parse_args f [e]) s
-  end
-with parse_fncall (fuel : nat) : P node :=
-  match fuel with O => pfuel | S f =>
-    t <- pcur ;; padv ;;; padv ;;; args <- parse_arglist f ;; pret (NFnCall t args)
-  end
-with parse_indices (fuel : nat) (acc : list node) : P (list node) :=
-  match fuel with O => pfuel | S f =>
-    e <- parse_arith f ;;
-    fun s => if is_t s TCOMMA then parse_indices f (e :: acc) (adv s)
-             else (expect TRSQRBRACKET ;;; pret (rev (e :: acc))) s
-  end
-with parse_resolver_tail (fuel : nat) (r : resolver) : P resolver :=
-  match fuel with O => pfuel | S f =>
+             else (e <- pr_parse_eval self ;; pr_parse_args self [e]) s.
+
+Definition parse_fncall_body (self : prs) : P node :=
+    t <- pcur ;; padv ;;; padv ;;; args <- pr_parse_arglist self ;; pret (NFnCall t args).
+
+Definition parse_indices_body (self : prs) (acc : list node) : P (list node) :=
+    e <- pr_parse_arith self ;;
+    fun s => if is_t s TCOMMA then pr_parse_indices self (e :: acc) (adv s)
+             else (expect TRSQRBRACKET ;;; pret (rev (e :: acc))) s.
+
+Definition parse_resolver_tail_body (self : prs) (r : resolver) : P resolver :=
     fun s =>
       let t := cur s in
       match tt t with
-      | TPERIOD => let s1 := adv s in parse_resolver_tail f (RField t r (cur s1)) (adv s1)
-      | TCARET => parse_resolver_tail f (RDeref t r) (adv s)
-      | TLSQRBRACKET => (idx <- parse_indices f [] ;; parse_resolver_tail f (RIndex t r idx)) (adv s)
+      | TPERIOD => let s1 := adv s in pr_parse_resolver_tail self (RField t r (cur s1)) (adv s1)
+      | TCARET => pr_parse_resolver_tail self (RDeref t r) (adv s)
+      | TLSQRBRACKET => (idx <- pr_parse_indices self [] ;; pr_parse_resolver_tail self (RIndex t r idx)) (adv s)
       | _ => POk r s
-      end
-  end
-with parse_resolver (fuel : nat) : P resolver :=
-  match fuel with O => pfuel | S f =>
-    t <- pcur ;; padv ;;; parse_resolver_tail f (RSimple t)
-  end
-(* ---------------- statements ---------------- *)
-with parse_ids (fuel : nat) (acc : list token) : P (list token) :=
-  match fuel with O => pfuel | S f =>
+      end.
+
+Definition parse_resolver_body (self : prs) : P resolver :=
+    t <- pcur ;; padv ;;; pr_parse_resolver_tail self (RSimple t).
+
+Definition parse_ids_body (self : prs) (acc : list token) : P (list token) :=
     fun s => if is_t s TIDENTIFIER then
                let t := cur s in let s1 := adv s in
-               if is_t s1 TCOMMA then parse_ids f (t :: acc) (adv s1) else POk (rev (t :: acc)) s1
-             else perr s
-  end
-with parse_bounds (fuel : nat) (acc : list node) : P (list node) :=
-  match fuel with O => pfuel | S f =>
-    lo <- parse_arith f ;; expect TCOLON ;;; hi <- parse_arith f ;;
-    fun s => if is_t s TCOMMA then parse_bounds f (hi :: lo :: acc) (adv s)
-             else POk (rev (hi :: lo :: acc)) s
-  end
-with parse_declare (fuel : nat) : P node :=
-  match fuel with O => pfuel | S f =>
-    op <- pcur ;; padv ;;; ids <- parse_ids f [] ;; expect TCOLON ;;;
+               if is_t s1 TCOMMA then pr_parse_ids self (t :: acc) (adv s1) else POk (rev (t :: acc)) s1
+             else perr s.
+
+Definition parse_bounds_body (self : prs) (acc : list node) : P (list node) :=
+    lo <- pr_parse_arith self ;; expect TCOLON ;;; hi <- pr_parse_arith self ;;
+    fun s => if is_t s TCOMMA then pr_parse_bounds self (hi :: lo :: acc) (adv s)
+             else POk (rev (hi :: lo :: acc)) s.
+
+Definition parse_declare_body (self : prs) : P node :=
+    op <- pcur ;; padv ;;; ids <- pr_parse_ids self [] ;; expect TCOLON ;;;
     fun s =>
       if is_t s TARRAY then
-        (padv ;;; expect TLSQRBRACKET ;;; bs <- parse_bounds f [] ;; expect TRSQRBRACKET ;;; expect TOF ;;;
+        (padv ;;; expect TLSQRBRACKET ;;; bs <- pr_parse_bounds self [] ;; expect TRSQRBRACKET ;;; expect TOF ;;;
          fun s1 => if is_type_tok s1 then POk (NArrDeclare op ids (cur s1) bs) (adv s1) else perr s1) s
       else if is_type_tok s then POk (NDeclare op ids (cur s)) (adv s)
-      else perr s
-  end
-with parse_const (fuel : nat) : P node :=
-  match fuel with O => pfuel | S f =>
+      else perr s.
+
+Definition parse_const_body (self : prs) : P node :=
     op <- pcur ;; padv ;;;
     fun s =>
       if negb (is_t s TIDENTIFIER) then perr s else
@@ -263,103 +284,92 @@ with parse_const (fuel : nat) : P node :=
       | Some (PFail k t s4) => PFail k t s4
       | Some PFuel => PFuel
       | None => perr s3
-      end
-  end
-with parse_enum_vals (fuel : nat) (acc : list str) : P (list str) :=
-  match fuel with O => pfuel | S f =>
+      end.
+
+Definition parse_enum_vals_body (self : prs) (acc : list str) : P (list str) :=
     fun s => if negb (is_t s TIDENTIFIER) then perr s else
              let v := tval (cur s) in let s1 := adv s in
-             if is_t s1 TCOMMA then parse_enum_vals f (v :: acc) (adv s1)
+             if is_t s1 TCOMMA then pr_parse_enum_vals self (v :: acc) (adv s1)
              else if is_t s1 TRPAREN then POk (rev (v :: acc)) (adv s1)
-             else perr s1
-  end
-with parse_comp_body (fuel : nat) (acc : list node) : P (list node) :=
-  match fuel with O => pfuel | S f =>
+             else perr s1.
+
+Definition parse_comp_body_body (self : prs) (acc : list node) : P (list node) :=
     fun s => if is_t s TDECLARE then
-               (d <- parse_declare f ;; expect TLINE_END ;;; skip_nl ;;; parse_comp_body f (d :: acc)) s
-             else (expect TENDTYPE ;;; pret (rev acc)) s
-  end
-with parse_type (fuel : nat) : P node :=
-  match fuel with O => pfuel | S f =>
+               (d <- pr_parse_declare self ;; expect TLINE_END ;;; skip_nl ;;; pr_parse_comp_body self (d :: acc)) s
+             else (expect TENDTYPE ;;; pret (rev acc)) s.
+
+Definition parse_type_body (self : prs) : P node :=
     t <- pcur ;; padv ;;; skip_nl ;;;
     fun s =>
       if negb (is_t s TIDENTIFIER) then perr s else
       let id := cur s in let s1 := adv s in
       if negb (is_t s1 TEQUALS) then
         if negb (is_t s1 TLINE_END) then perr s1
-        else (skip_nl ;;; body <- parse_comp_body f [] ;; pret (NCompDef t id body)) (adv s1)
+        else (skip_nl ;;; body <- pr_parse_comp_body self [] ;; pret (NCompDef t id body)) (adv s1)
       else
         let s2 := adv s1 in
         if is_t s2 TCARET then
           let s3 := adv s2 in
           if is_type_tok s3 then POk (NPtrDef t id (cur s3)) (adv s3) else perr s3
-        else if is_t s2 TLPAREN then (vs <- parse_enum_vals f [] ;; pret (NEnumDef t id vs)) (adv s2)
-        else perr s2
-  end
-with parse_if_tail (fuel : nat) (acc : list (option node * list node)) : P (list (option node * list node)) :=
-  match fuel with O => pfuel | S f =>
+        else if is_t s2 TLPAREN then (vs <- pr_parse_enum_vals self [] ;; pret (NEnumDef t id vs)) (adv s2)
+        else perr s2.
+
+Definition parse_if_tail_body (self : prs) (acc : list (option node * list node)) : P (list (option node * list node)) :=
     fun s =>
       if is_t s TELSE then
         let s1 := adv s in
         if is_t s1 TIF then
           if pedantic then PFail LexPedantic (cur s1) s1
-          else (c <- parse_eval f ;; skip_nl ;;; expect TTHEN ;;; b <- parse_block f BOther ;;
-                parse_if_tail f ((Some c, b) :: acc)) (adv s1)
-        else (b <- parse_block f BOther ;; expect TENDIF ;;; pret (rev ((None, b) :: acc))) s1
-      else (expect TENDIF ;;; pret (rev acc)) s
-  end
-with parse_if (fuel : nat) : P node :=
-  match fuel with O => pfuel | S f =>
-    t <- pcur ;; padv ;;; c <- parse_eval f ;; skip_nl ;;; expect TTHEN ;;; b <- parse_block f BOther ;;
-    comps <- parse_if_tail f [(Some c, b)] ;; pret (NIf t comps)
-  end
-with parse_case_clauses (fuel : nat) (acc : list casecomp) : P (list casecomp) :=
-  match fuel with O => pfuel | S f =>
+          else (c <- pr_parse_eval self ;; skip_nl ;;; expect TTHEN ;;; b <- pr_parse_block self BOther ;;
+                pr_parse_if_tail self ((Some c, b) :: acc)) (adv s1)
+        else (b <- pr_parse_block self BOther ;; expect TENDIF ;;; pret (rev ((None, b) :: acc))) s1
+      else (expect TENDIF ;;; pret (rev acc)) s.
+
+Definition parse_if_body (self : prs) : P node :=
+    t <- pcur ;; padv ;;; c <- pr_parse_eval self ;; skip_nl ;;; expect TTHEN ;;; b <- pr_parse_block self BOther ;;
+    comps <- pr_parse_if_tail self [(Some c, b)] ;; pret (NIf t comps).
+
+Definition parse_case_clauses_body (self : prs) (acc : list casecomp) : P (list casecomp) :=
     fun s =>
       if is_t s TENDCASE then POk (rev acc) (adv s)
       else if is_t s TOTHERWISE then
-        (padv ;;; expect TCOLON ;;; b <- parse_block f BCase ;; expect TENDCASE ;;; pret (rev (COther b :: acc))) s
+        (padv ;;; expect TCOLON ;;; b <- pr_parse_block self BCase ;; expect TENDCASE ;;; pret (rev (COther b :: acc))) s
       else
-        (e <- parse_eval f ;;
+        (e <- pr_parse_eval self ;;
          fun s1 =>
            if is_t s1 TTO then
-             (padv ;;; hi <- parse_eval f ;; expect TCOLON ;;; b <- parse_block f BCase ;;
-              parse_case_clauses f (CRange b e hi :: acc)) s1
-           else (expect TCOLON ;;; b <- parse_block f BCase ;; parse_case_clauses f (CEq b e :: acc)) s1) s
-  end
-with parse_case (fuel : nat) : P node :=
-  match fuel with O => pfuel | S f =>
+             (padv ;;; hi <- pr_parse_eval self ;; expect TCOLON ;;; b <- pr_parse_block self BCase ;;
+              pr_parse_case_clauses self (CRange b e hi :: acc)) s1
+           else (expect TCOLON ;;; b <- pr_parse_block self BCase ;; pr_parse_case_clauses self (CEq b e :: acc)) s1) s.
+
+Definition parse_case_body (self : prs) : P node :=
     t <- pcur ;; padv ;;; expect TOF ;;;
     fun s => if negb (is_t s TIDENTIFIER) then perr s else
              let id := cur s in
-             (padv ;;; skip_nl ;;; cs <- parse_case_clauses f [] ;; pret (NCase t (NAccess id (RSimple id)) cs)) s
-  end
-with parse_while (fuel : nat) : P node :=
-  match fuel with O => pfuel | S f =>
-    t <- pcur ;; padv ;;; c <- parse_eval f ;; skip_nl ;;;
+             (padv ;;; skip_nl ;;; cs <- pr_parse_case_clauses self [] ;; pret (NCase t (NAccess id (RSimple id)) cs)) s.
+
+Definition parse_while_body (self : prs) : P node :=
+    t <- pcur ;; padv ;;; c <- pr_parse_eval self ;; skip_nl ;;;
     (fun s => POk Datatypes.tt (if is_t s TDO then adv s else s)) ;;;
-    b <- parse_block f BOther ;; expect TENDWHILE ;;; pret (NWhile t c b)
-  end
-with parse_repeat (fuel : nat) : P node :=
-  match fuel with O => pfuel | S f =>
-    t <- pcur ;; padv ;;; b <- parse_block f BOther ;; expect TUNTIL ;;; c <- parse_eval f ;; pret (NRepeat t c b)
-  end
-with parse_for (fuel : nat) : P node :=
-  match fuel with O => pfuel | S f =>
+    b <- pr_parse_block self BOther ;; expect TENDWHILE ;;; pret (NWhile t c b).
+
+Definition parse_repeat_body (self : prs) : P node :=
+    t <- pcur ;; padv ;;; b <- pr_parse_block self BOther ;; expect TUNTIL ;;; c <- pr_parse_eval self ;; pret (NRepeat t c b).
+
+Definition parse_for_body (self : prs) : P node :=
     t <- pcur ;; padv ;;;
     fun s =>
       if negb (is_t s TIDENTIFIER) then perr s else
       let it := cur s in
-      (padv ;;; expect TASSIGNMENT ;;; a <- parse_arith f ;; expect TTO ;;; b <- parse_arith f ;;
-       st <- (fun s1 => if is_t s1 TSTEP then (padv ;;; e <- parse_arith f ;; pret (Some e)) s1 else POk None s1) ;;
-       body <- parse_block f BOther ;; expect TNEXT ;;;
+      (padv ;;; expect TASSIGNMENT ;;; a <- pr_parse_arith self ;; expect TTO ;;; b <- pr_parse_arith self ;;
+       st <- (fun s1 => if is_t s1 TSTEP then (padv ;;; e <- pr_parse_arith self ;; pret (Some e)) s1 else POk None s1) ;;
+       body <- pr_parse_block self BOther ;; expect TNEXT ;;;
        fun s2 =>
          if is_t s2 TIDENTIFIER then
            if str_eqb (tval (cur s2)) (tval it) then POk (NFor t it a b st body) (adv s2) else perr s2
-         else POk (NFor t it a b st body) s2) s
-  end
-with parse_params (fuel : nat) (a : pacc) : P pacc :=
-  match fuel with O => pfuel | S f =>
+         else POk (NFor t it a b st body) s2) s.
+
+Definition parse_params_body (self : prs) (a : pacc) : P pacc :=
     fun s =>
       if is_t s TRPAREN then
         if negb (Nat.eqb (pa_tc a) 1) then perr s
@@ -385,72 +395,66 @@ with parse_params (fuel : nat) (a : pacc) : P pacc :=
             let s4 := adv s3 in
             if negb (is_type_tok s4) then perr s4 else
             let ty := cur s4 in
-            parse_params f (mkPacc (pa_names a1 ++ [nm]) (pa_types a1 ++ replicate (pa_tc a1) ty) (pa_pass a1)
+            pr_parse_params self (mkPacc (pa_names a1 ++ [nm]) (pa_types a1 ++ replicate (pa_tc a1) ty) (pa_pass a1)
                                    (pa_byref a1) 1 (pa_pc a1)) (adv s4)
           else if is_t s3 TCOMMA then
-            parse_params f (mkPacc (pa_names a1 ++ [nm]) (pa_types a1) (pa_pass a1) (pa_byref a1) (S (pa_tc a1)) (pa_pc a1)) s3
+            pr_parse_params self (mkPacc (pa_names a1 ++ [nm]) (pa_types a1) (pa_pass a1) (pa_byref a1) (S (pa_tc a1)) (pa_pc a1)) s3
           else perr s3
-        end
-  end
-with parse_paramlist (fuel : nat) : P (list (str * token * bool)) :=
-  match fuel with O => pfuel | S f =>
+        end.
+
+Definition parse_paramlist_body (self : prs) : P (list (str * token * bool)) :=
     fun s =>
       if is_t s TLPAREN then
-        (a <- parse_params f (mkPacc [] [] [] false 1 0) ;;
+        (a <- pr_parse_params self (mkPacc [] [] [] false 1 0) ;;
          pret (combine (combine (pa_names a) (pa_types a)) (pa_pass a))) (adv s)
-      else POk [] s
-  end
-with parse_procedure (fuel : nat) : P node :=
-  match fuel with O => pfuel | S f =>
+      else POk [] s.
+
+Definition parse_procedure_body (self : prs) : P node :=
     t <- pcur ;; padv ;;;
     fun s => if negb (is_t s TIDENTIFIER) then perr s else
              let nm := tval (cur s) in
-             (padv ;;; ps <- parse_paramlist f ;; b <- parse_block f BOther ;; expect TENDPROCEDURE ;;;
-              pret (NProc t nm ps b)) s
-  end
-with parse_function (fuel : nat) : P node :=
-  match fuel with O => pfuel | S f =>
+             (padv ;;; ps <- pr_parse_paramlist self ;; b <- pr_parse_block self BOther ;; expect TENDPROCEDURE ;;;
+              pret (NProc t nm ps b)) s.
+
+Definition parse_function_body (self : prs) : P node :=
     t <- pcur ;; padv ;;;
     fun s => if negb (is_t s TIDENTIFIER) then perr s else
              let nm := tval (cur s) in
-             (padv ;;; ps <- parse_paramlist f ;; skip_nl ;;; expect TRETURNS ;;;
+             (padv ;;; ps <- pr_parse_paramlist self ;; skip_nl ;;; expect TRETURNS ;;;
               fun s1 => if negb (is_type_tok s1) then perr s1 else
                         let rt := cur s1 in
-                        (padv ;;; b <- parse_block f BOther ;; expect TENDFUNCTION ;;; pret (NFunc t nm ps b rt)) s1) s
-  end
-with parse_call (fuel : nat) : P node :=
-  match fuel with O => pfuel | S f =>
+                        (padv ;;; b <- pr_parse_block self BOther ;; expect TENDFUNCTION ;;; pret (NFunc t nm ps b rt)) s1) s.
+
+Definition parse_call_body (self : prs) : P node :=
     t <- pcur ;; padv ;;;
     fun s => if negb (is_t s TIDENTIFIER) then perr s else
              let nm := tval (cur s) in
              let s1 := adv s in
-             if is_t s1 TLPAREN then (args <- parse_arglist f ;; pret (NCall t nm args)) (adv s1)
-             else POk (NCall t nm []) s1
-  end
-with parse_output_tail (fuel : nat) (acc : list node) : P (list node) :=
-  match fuel with O => pfuel | S f =>
-    fun s => if is_t s TCOMMA then (padv ;;; e <- parse_eval f ;; parse_output_tail f (e :: acc)) s
-             else POk (rev acc) s
-  end
-with parse_statement (fuel : nat) : P node :=          (* Parser::parseExpression *)
-  match fuel with O => pfuel | S f =>
+             if is_t s1 TLPAREN then (args <- pr_parse_arglist self ;; pret (NCall t nm args)) (adv s1)
+             else POk (NCall t nm []) s1.
+
+Definition parse_output_tail_body (self : prs) (acc : list node) : P (list node) :=
+    fun s => if is_t s TCOMMA then (padv ;;; e <- pr_parse_eval self ;; pr_parse_output_tail self (e :: acc)) s
+             else POk (rev acc) s.
+
+Definition parse_statement_body (self : prs) : P node :=
     fun s =>
       let t := cur s in
       match tt t with
-      | TDECLARE => parse_declare f s
-      | TCONSTANT => parse_const f s
-      | TTYPE => parse_type f s
-      | TIF => parse_if f s
-      | TCASE => parse_case f s
-      | TWHILE => parse_while f s
-      | TREPEAT => parse_repeat f s
-      | TFOR => parse_for f s
-      | TCALL => parse_call f s
-      | TOUTPUT => (padv ;;; e <- parse_eval f ;; es <- parse_output_tail f [e] ;; pret (NOutput t es)) s
+      | TDECLARE => pr_parse_declare self s
+      | TCONSTANT => pr_parse_const self s
+      | TTYPE => pr_parse_type self s
+      | TIF => pr_parse_if self s
+      | TCASE => pr_parse_case self s
+      | TWHILE => pr_parse_while self s
+      | TREPEAT => pr_parse_repeat self s
+      | TFOR => pr_parse_for self s
+      | TCALL => pr_parse_call self s
+      | TOUTPUT => (padv ;;; e <- pr_parse_eval self ;; es <- pr_parse_output_tail self [e] ;; pret (NOutput t es)) s
       | TREAD | TINPUT =>
-        (padv ;;; fun s1 => if is_t s1 TIDENTIFIER then (r <- parse_resolver f ;; pret (NInput t r)) s1 else perr s1) s
+        (padv ;;; fun s1 => if is_t s1 TIDENTIFIER then (r <- pr_parse_resolver self ;; pret (NInput t r)) s1 else perr s1) s
       | TOPENFILE =>
-        (padv ;;; fn <- parse_strexpr f ;; expect TFOR ;;;
+        (padv ;;; fn <- pr_parse_strexpr self ;; expect TFOR ;;;
          fun s1 => match tt (cur s1) with
                    | TREAD => POk (NOpenFile t fn FRead) (adv s1)
                    | TWRITE => POk (NOpenFile t fn FWrite) (adv s1)
@@ -459,25 +463,24 @@ with parse_statement (fuel : nat) : P node :=          (* Parser::parseExpressio
                    | _ => perr s1
                    end) s
       | TREADFILE =>
-        (padv ;;; fn <- parse_strexpr f ;; expect TCOMMA ;;;
+        (padv ;;; fn <- pr_parse_strexpr self ;; expect TCOMMA ;;;
          fun s1 => if is_t s1 TIDENTIFIER then POk (NReadFile t fn (cur s1)) (adv s1) else perr s1) s
-      | TWRITEFILE => (padv ;;; fn <- parse_strexpr f ;; expect TCOMMA ;;; d <- parse_eval f ;; pret (NWriteFile t fn d)) s
-      | TCLOSEFILE => (padv ;;; fn <- parse_strexpr f ;; pret (NCloseFile t fn)) s
-      | TSEEK => (padv ;;; fn <- parse_strexpr f ;; expect TCOMMA ;;; a <- parse_eval f ;; pret (NSeek t fn a)) s
+      | TWRITEFILE => (padv ;;; fn <- pr_parse_strexpr self ;; expect TCOMMA ;;; d <- pr_parse_eval self ;; pret (NWriteFile t fn d)) s
+      | TCLOSEFILE => (padv ;;; fn <- pr_parse_strexpr self ;; pret (NCloseFile t fn)) s
+      | TSEEK => (padv ;;; fn <- pr_parse_strexpr self ;; expect TCOMMA ;;; a <- pr_parse_eval self ;; pret (NSeek t fn a)) s
       | TGETRECORD =>
-        (padv ;;; fn <- parse_strexpr f ;; expect TCOMMA ;;;
+        (padv ;;; fn <- pr_parse_strexpr self ;; expect TCOMMA ;;;
          fun s1 => if is_t s1 TIDENTIFIER then POk (NGetRecord t fn (cur s1)) (adv s1) else perr s1) s
       | TPUTRECORD =>
-        (padv ;;; fn <- parse_strexpr f ;; expect TCOMMA ;;;
+        (padv ;;; fn <- pr_parse_strexpr self ;; expect TCOMMA ;;;
          fun s1 => if is_t s1 TIDENTIFIER then POk (NPutRecord t fn (cur s1)) (adv s1) else perr s1) s
-      | TRETURN => (padv ;;; e <- parse_eval f ;; pret (NReturn t e)) s
+      | TRETURN => (padv ;;; e <- pr_parse_eval self ;; pret (NReturn t e)) s
       | TBREAK => POk (NBreak t) (adv s)
       | TCONTINUE => POk (NContinue t) (adv s)
-      | _ => parse_eval f s
-      end
-  end
-with parse_block_loop (fuel : nat) (bt : btype) (acc : list node) : P (list node) :=
-  match fuel with O => pfuel | S f =>
+      | _ => pr_parse_eval self s
+      end.
+
+Definition parse_block_loop_body (self : prs) (bt : btype) (acc : list node) : P (list node) :=
     skip_nl ;;;
     fun s =>
       let t := cur s in
@@ -487,21 +490,67 @@ with parse_block_loop (fuel : nat) (bt : btype) (acc : list node) : P (list node
       else
         let pn : P node :=
           match tt t with
-          | TPROCEDURE => match bt with BMain => parse_procedure f | _ => perr end
-          | TFUNCTION => match bt with BMain => parse_function f | _ => perr end
+          | TPROCEDURE => match bt with BMain => pr_parse_procedure self | _ => perr end
+          | TFUNCTION => match bt with BMain => pr_parse_function self | _ => perr end
           | _ =>
-            n <- parse_statement f ;;
+            n <- pr_parse_statement self ;;
             fun s1 => match n with
                       | NCmp ct (NAccess _ _) _ => POk n (mkPst (p_toks s1) ((tline ct, tcol ct) :: p_warns s1))
                       | _ => POk n s1
                       end
           end in
         (n <- pn ;;
-         fun s1 => if is_t s1 TLINE_END || is_t s1 TEXPRESSION_END then parse_block_loop f bt (n :: acc) s1
-                   else perr s1) s
-  end
-with parse_block (fuel : nat) (bt : btype) : P (list node) :=
-  match fuel with O => pfuel | S f => parse_block_loop f bt [] end.
+         fun s1 => if is_t s1 TLINE_END || is_t s1 TEXPRESSION_END then pr_parse_block_loop self bt (n :: acc) s1
+                   else perr s1) s.
+
+Definition parse_block_body (self : prs) (bt : btype) : P (list node) :=
+    pr_parse_block_loop self bt [].
+
+Definition prs_zero : prs :=
+  mkPrs O pfuel pfuel pfuel pfuel pfuel pfuel pfuel pfuel pfuel pfuel (fun _ => pfuel) pfuel pfuel (fun _ => pfuel) (fun _ => pfuel) pfuel (fun _ => pfuel) (fun _ => pfuel) pfuel pfuel (fun _ => pfuel) (fun _ => pfuel) pfuel (fun _ => pfuel) pfuel (fun _ => pfuel) pfuel pfuel pfuel pfuel (fun _ => pfuel) pfuel pfuel pfuel pfuel (fun _ => pfuel) pfuel (fun _ _ => pfuel) (fun _ => pfuel).
+Definition prs_step (self : prs) : prs :=
+  mkPrs (S (pr_fuel self)) (parse_eval_body self) (parse_logical_body self) (parse_comparison_body self) (parse_strexpr_body self) (parse_arith_body self) (parse_term_body self) (parse_factor_body self) (parse_atom_body self) (parse_moddiv_body self) (parse_cast_body self) (parse_args_body self) (parse_arglist_body self) (parse_fncall_body self) (parse_indices_body self) (parse_resolver_tail_body self) (parse_resolver_body self) (parse_ids_body self) (parse_bounds_body self) (parse_declare_body self) (parse_const_body self) (parse_enum_vals_body self) (parse_comp_body_body self) (parse_type_body self) (parse_if_tail_body self) (parse_if_body self) (parse_case_clauses_body self) (parse_case_body self) (parse_while_body self) (parse_repeat_body self) (parse_for_body self) (parse_params_body self) (parse_paramlist_body self) (parse_procedure_body self) (parse_function_body self) (parse_call_body self) (parse_output_tail_body self) (parse_statement_body self) (parse_block_loop_body self) (parse_block_body self).
+Fixpoint prs_at (fuel : nat) : prs := match fuel with O => prs_zero | S f => prs_step (prs_at f) end.
+
+Definition parse_eval (fuel : nat) := pr_parse_eval (prs_at fuel).
+Definition parse_logical (fuel : nat) := pr_parse_logical (prs_at fuel).
+Definition parse_comparison (fuel : nat) := pr_parse_comparison (prs_at fuel).
+Definition parse_strexpr (fuel : nat) := pr_parse_strexpr (prs_at fuel).
+Definition parse_arith (fuel : nat) := pr_parse_arith (prs_at fuel).
+Definition parse_term (fuel : nat) := pr_parse_term (prs_at fuel).
+Definition parse_factor (fuel : nat) := pr_parse_factor (prs_at fuel).
+Definition parse_atom (fuel : nat) := pr_parse_atom (prs_at fuel).
+Definition parse_moddiv (fuel : nat) := pr_parse_moddiv (prs_at fuel).
+Definition parse_cast (fuel : nat) := pr_parse_cast (prs_at fuel).
+Definition parse_args (fuel : nat) := pr_parse_args (prs_at fuel).
+Definition parse_arglist (fuel : nat) := pr_parse_arglist (prs_at fuel).
+Definition parse_fncall (fuel : nat) := pr_parse_fncall (prs_at fuel).
+Definition parse_indices (fuel : nat) := pr_parse_indices (prs_at fuel).
+Definition parse_resolver_tail (fuel : nat) := pr_parse_resolver_tail (prs_at fuel).
+Definition parse_resolver (fuel : nat) := pr_parse_resolver (prs_at fuel).
+Definition parse_ids (fuel : nat) := pr_parse_ids (prs_at fuel).
+Definition parse_bounds (fuel : nat) := pr_parse_bounds (prs_at fuel).
+Definition parse_declare (fuel : nat) := pr_parse_declare (prs_at fuel).
+Definition parse_const (fuel : nat) := pr_parse_const (prs_at fuel).
+Definition parse_enum_vals (fuel : nat) := pr_parse_enum_vals (prs_at fuel).
+Definition parse_comp_body (fuel : nat) := pr_parse_comp_body (prs_at fuel).
+Definition parse_type (fuel : nat) := pr_parse_type (prs_at fuel).
+Definition parse_if_tail (fuel : nat) := pr_parse_if_tail (prs_at fuel).
+Definition parse_if (fuel : nat) := pr_parse_if (prs_at fuel).
+Definition parse_case_clauses (fuel : nat) := pr_parse_case_clauses (prs_at fuel).
+Definition parse_case (fuel : nat) := pr_parse_case (prs_at fuel).
+Definition parse_while (fuel : nat) := pr_parse_while (prs_at fuel).
+Definition parse_repeat (fuel : nat) := pr_parse_repeat (prs_at fuel).
+Definition parse_for (fuel : nat) := pr_parse_for (prs_at fuel).
+Definition parse_params (fuel : nat) := pr_parse_params (prs_at fuel).
+Definition parse_paramlist (fuel : nat) := pr_parse_paramlist (prs_at fuel).
+Definition parse_procedure (fuel : nat) := pr_parse_procedure (prs_at fuel).
+Definition parse_function (fuel : nat) := pr_parse_function (prs_at fuel).
+Definition parse_call (fuel : nat) := pr_parse_call (prs_at fuel).
+Definition parse_output_tail (fuel : nat) := pr_parse_output_tail (prs_at fuel).
+Definition parse_statement (fuel : nat) := pr_parse_statement (prs_at fuel).
+Definition parse_block_loop (fuel : nat) := pr_parse_block_loop (prs_at fuel).
+Definition parse_block (fuel : nat) := pr_parse_block (prs_at fuel).
 
 Definition parse_fuel (ts : list token) : nat := 40 * List.length ts + 100.
 
